@@ -160,6 +160,11 @@ func awkwardAny() []namedValue {
 		nv("[2]any{nil,[]any}", [2]any{nil, []any{1}}), nv("struct{error:ptr}", struct{ E error }{&ptrErr{"e"}}), nv("[]any{[]any{map}}", []any{[]any{map[string]any{"k": []int{1}}}}),
 		nv("[]*int{nil}", []*int{nil}), nv("[]func(){f}", []func(){func() {}}), nv("[2]*string{nil,nil}", [2]*string{}), nv("[]any{1,nil}", []any{1, nil}),
 		nv("struct embedding exported", holdsPub{EmbPub{1}, 2}), nv("struct embedding unexported", holdsPriv{embPriv{1}, 2}), nv("struct with blank field", holdsBlank{N: 2}), nv("struct embedding nil pointer", holdsPtrEmb{nil, 2}),
+		// byte arrays held by value (digests, UUIDs) and inside other values; runes that are no characters
+		nv("[4]byte", [4]byte{1, 2, 3, 4}), nv("[16]byte{}", [16]byte{}), nv("struct{[4]byte}", struct{ ID [4]byte }{[4]byte{9, 9, 9, 9}}), nv("map[string][2]byte", map[string][2]byte{"k": {1, 2}}), nv("*[4]byte", &[4]byte{1, 2, 3, 4}),
+		nv("rune: lone high surrogate", rune(0xD83D)), nv("rune: lone low surrogate", rune(0xDFFF)), nv("rune -1", rune(-1)), nv("rune beyond Unicode", rune(0x110000)), nv("rune 0", rune(0)),
+		nv("9 pointer levels above a Stack", deepPointer(stackage.And().Push("deep"), 9)), nv("12 pointer levels above an int", deepPointer(7, 12)), nv("9 pointer levels above a Condition alias", deepPointer(CondAlias(stackage.Cond("k", stackage.Eq, "v")), 9)),
+		nv("declared pointer to a Stack", StackRef(func() *stackage.Stack { s := stackage.Or().Push("r"); return &s }())), nv("declared pointer to a Condition", CondRef(func() *stackage.Condition { c := stackage.Cond("k", stackage.Ne, "r"); return &c }())), nv("nil declared pointer", StackRef(nil)),
 		nv("Stringer", strer{"str"}), nv("zero Stringer", strer{}), nv("[]string{}", []string{}), nv("LogLevel(0)", stackage.LogLevel(0)),
 	}
 	return out
